@@ -160,6 +160,40 @@ type grantState struct {
 	get   bool
 	call  string
 	known bool
+	// answers received earlier since the last trigger: a call on a resource without a subscription
+	// uses a temporary subscription with its own access request, so two requests of one connection
+	// for one resource can be outstanding and be answered differently; either answer is a grant
+	// the gateway may hold.
+	alts []grantAlt
+}
+
+type grantAlt struct {
+	get  bool
+	call string
+}
+
+func (g *grantState) canCall(method string) bool {
+	if specCanCall(g.call, method) {
+		return true
+	}
+	for _, a := range g.alts {
+		if specCanCall(a.call, method) {
+			return true
+		}
+	}
+	return false
+}
+
+func (g *grantState) canGet() bool {
+	if g.get {
+		return true
+	}
+	for _, a := range g.alts {
+		if a.get {
+			return true
+		}
+	}
+	return false
 }
 
 type queryEvState struct {
@@ -317,7 +351,7 @@ func (m *monitors) onFrame(c *wsClient, f *cframe) {
 					rc.direct[*ro.RID]++
 				} else {
 					g := m.grants[c.cid+" "+strings.ReplaceAll(*ro.RID, "{cid}", c.cid)]
-					if g != nil && g.known && g.get {
+					if g != nil && g.known && g.canGet() {
 						rc.direct[*ro.RID]++
 					}
 				}
@@ -559,7 +593,7 @@ func (m *monitors) onRequest(l mqLog) {
 				key += "?" + p.Query
 			}
 			g := m.grants[key]
-			if g == nil || !g.known || !g.valid || !specCanCall(g.call, method) {
+			if g == nil || !g.known || !g.valid || !g.canCall(method) {
 				st := "none"
 				if g != nil {
 					st = fmt.Sprintf("valid=%v call=%q", g.valid, g.call)
@@ -600,8 +634,9 @@ func (m *monitors) onAnswer(r *mockReq, label string, data []byte, err error) {
 		}
 		// the request must have carried the connection's token of that time; an answer to a
 		// request issued before a trigger does not count as valid after it (it is re-checked)
-		old := m.grants[key]
-		_ = old
+		if old := m.grants[key]; old != nil && old.known && old.valid {
+			g.alts = append(append(g.alts, old.alts...), grantAlt{get: old.get, call: old.call})
+		}
 		m.grants[key] = g
 	}
 }
@@ -615,7 +650,7 @@ func (m *monitors) checkDataGrant(c *wsClient, rid string, rs *rpcResources, f *
 	}
 	name := strings.ReplaceAll(rid, "{cid}", c.cid)
 	g := m.grants[c.cid+" "+name]
-	if g == nil || !g.known || !g.get {
+	if g == nil || !g.known || !g.canGet() {
 		m.w.addViolation("C04", "data-without-grant", fmt.Sprintf("%s received data of %s without a get grant", c.name, rid))
 		return
 	}
